@@ -2,6 +2,7 @@ package main
 
 import (
 	"fmt"
+	"sort"
 
 	u "github.com/utreexo/utreexo"
 )
@@ -155,15 +156,49 @@ func (w *World) stumpCoincident(n *Node, st *State, seed uint64) {
 			return
 		}
 	}
-	err, _ = guard(func() error { _, e := s.Update(dels, adds, proof); return e })
+	var ud u.UpdateData
+	err, _ = guard(func() error { var e error; ud, e = s.Update(dels, adds, proof); return e })
 	if err != nil {
 		w.violate(n, own, "coincident-apply-err", where+" Stump.Update failed: "+err.Error())
 		return
 	}
-	post := st2.WithDels(dels).WithAdds(adds)
+	mid := st2.WithDels(dels)
+	post := mid.WithAdds(adds)
 	if s.NumLeaves != post.N || !eqHashes(s.Roots, post.Layout().Roots) {
 		w.violate(n, own, "coincident-roots", fmt.Sprintf("%s after Stump.Update: %d leaves, roots differ from the model at index %d (model %d leaves)", where, s.NumLeaves, firstDiff(s.Roots, post.Layout().Roots), post.N))
+		return
 	}
+	if w.on("updatedata") {
+		// the update data of that block (C11).  When two of the nodes it must list
+		// carry the same hash the class says so: known finding KF3.
+		b := &Block{ID: n.at, Dels: dels, Adds: adds, Pre: st2, Mid: mid, Post: post}
+		w.classPrefix, w.classSuffix = "coincident-", ""
+		if hasDupHash(ExpectedUpdate(st2, mid, post, dels, adds).AddHash) {
+			w.classSuffix = "/equal-hashes"
+			w.stats.Reach["updatedata_two_listed_nodes_same_hash"]++
+		}
+		w.checkUpdateData(n, b, ud)
+		w.classPrefix, w.classSuffix = "", ""
+	}
+}
+
+func hasDupHash(hs []H) bool {
+	seen := map[H]bool{}
+	for _, h := range hs {
+		if h != zeroH && seen[h] {
+			return true
+		}
+		seen[h] = true
+	}
+	return false
+}
+
+// sameUpdate: the update data is what the model expects (positions and hashes).
+func sameUpdate(ud u.UpdateData, e expUpdate) bool {
+	return ud.PrevNumLeaves == e.PrevNumLeaves &&
+		(eqU64(ud.ToDestroy, e.ToDestroy) || len(ud.ToDestroy) == 0 && len(e.ToDestroy) == 0) &&
+		eqU64(ud.NewDelPos, e.DelPos) && eqHashes(ud.NewDelHash, e.DelHash) &&
+		eqU64(ud.NewAddPos, e.AddPos) && eqHashes(ud.NewAddHash, e.AddHash)
 }
 
 // partialCoincident: MapPollard.GetMissingPositions + VerifyPartialProof on a
@@ -251,4 +286,128 @@ func (w *World) partialCoincident(n *Node, st *State, r *Rng) {
 	}
 	pw, _ := L.CanonProof(want)
 	w.partialFetchVerify(&tmp, st2, padH(want), padU(pw.Targets), false)
+}
+
+// lightCoincident: the cached proof of a light client that tracks a few leaves
+// of a coincident state is taken through one block and back (Proof.Update with
+// the update data the real Stump.Update hands out, then Proof.Undo) and judged
+// by the same oracle as the light nodes of the run.  Nothing of node n changes.
+func (w *World) lightCoincident(n *Node, st *State, seed uint64) {
+	r := SubRng(seed, "light-coincident")
+	if !r.Pct(10) || st.NumLive() < 2 {
+		return
+	}
+	st2, _, slot := coincidentAt(st, r, r.Pct(40))
+	if st2 == nil {
+		return
+	}
+	w.stats.Reach["light_leaf_equals_node_hash"]++
+	L := st2.Layout()
+	live := st2.Live()
+	twin := st2.Leaves[slot]
+	pick := func(k int, force bool) []H {
+		picks := make([]int, k)
+		for i := range picks {
+			picks[i] = r.Intn(1 << 20)
+		}
+		hs := w.pickHashes(live, picks)
+		if force && len(hs) > 0 {
+			has := false
+			for _, h := range hs {
+				has = has || h == twin
+			}
+			if !has {
+				hs[0] = twin
+			}
+		}
+		return hs
+	}
+	held := pick(1+r.Intn(4), r.Pct(70))
+	sort.Slice(held, func(i, j int) bool { return L.LeafAt[held[i]].Pos(L.R) < L.LeafAt[held[j]].Pos(L.R) })
+	dels := pick(r.Intn(4), r.Pct(30))
+	adds := make([]H, r.Intn(4))
+	var rem []uint32
+	for i := range adds {
+		x := mix64(seed ^ uint64(i+1)*0x11c01c1de)
+		for k := range adds[i] {
+			if k%8 == 0 {
+				x = mix64(x)
+			}
+			adds[i][k] = byte(x >> (uint(k%8) * 8))
+		}
+		adds[i][0], adds[i][31] = 0xc1, adds[i][31]|1
+		if r.Pct(50) {
+			rem = append(rem, uint32(i))
+		}
+	}
+	if len(dels) == 0 && len(adds) == 0 {
+		return
+	}
+	bp, _ := L.CanonProof(dels)
+	cp, _ := L.CanonProof(held)
+	tmp := *n
+	tmp.cfg.Big = 0
+	tmp.ch, tmp.cp = padH(held), u.Proof{Targets: padU(cp.Targets), Proof: padH(cp.Proof)}
+	tmp.held = map[H]bool{}
+	for _, h := range held {
+		tmp.held[h] = true
+	}
+	where := fmt.Sprintf("[state of block %d with leaf %s carrying a node's hash; N=%d, tracked %v, block deletes %v and adds %d]", n.at, short(twin), st2.N, cp.Targets, bp.Targets, len(adds))
+	s := u.Stump{Roots: append([]H(nil), L.Roots...), NumLeaves: st2.N}
+	var ud u.UpdateData
+	if err, _ := guard(func() error { var e error; ud, e = s.Update(dels, adds, bp); return e }); err != nil {
+		return // stumpCoincident reports this
+	}
+	mid := st2.WithDels(dels)
+	post := mid.WithAdds(adds)
+	if !sameUpdate(ud, ExpectedUpdate(st2, mid, post, dels, adds)) {
+		// the update data itself is wrong (C11 reports that: stumpCoincident)
+		w.stats.Reach["light_coincident_skipped_wrong_updatedata"]++
+		return
+	}
+	var out []H
+	err, _ := guard(func() error {
+		var e error
+		out, e = tmp.cp.Update(tmp.ch, adds, bp.Targets, rem, ud)
+		return e
+	})
+	if err != nil {
+		w.violate(n, "C07", "coincident-update-err", where+" Proof.Update failed: "+err.Error())
+		return
+	}
+	tmp.ch = out
+	for _, d := range dels {
+		delete(tmp.held, d)
+	}
+	for _, k := range rem {
+		tmp.held[adds[k]] = true
+	}
+	if cls, det := w.lightMismatch(&tmp, post); cls != "" {
+		if cls == "held-set" && w.heldMissingOnlyLoneRoots(&tmp, post) {
+			cls = "held-set-lone-root-leaf-missing"
+		}
+		w.violate(n, "C07", "coincident-"+cls, where+" after Proof.Update: "+det)
+		return
+	}
+	// and back
+	err, _ = guard(func() error {
+		var e error
+		out, e = tmp.cp.Undo(uint64(len(adds)), post.N, bp.Targets, dels, tmp.ch, ud.ToDestroy, bp)
+		return e
+	})
+	if err != nil {
+		w.violate(n, "C08", "coincident-undo-err", where+" Proof.Undo failed: "+err.Error())
+		return
+	}
+	tmp.ch = out
+	tmp.held = map[H]bool{}
+	for _, h := range held {
+		tmp.held[h] = true
+	}
+	for _, d := range dels {
+		delete(tmp.held, d) // documented: leaves the block deleted are not restored
+	}
+	if cls, det := w.lightMismatch(&tmp, st2); cls != "" {
+		w.violate(n, "C08", "coincident-"+cls, where+" after Proof.Undo: "+det)
+	}
 }
